@@ -315,11 +315,38 @@ pub fn run(ctx: &mut Ctx) {
                passwords: vec![(vec![], 2), (vec![45, 86, 217, 6, 218, 69, 33, 176, 228, 88, 36, 71, 228, 124, 40, 55, 239, 211, 203, 63], 0)],
                recipients: vec![(5, true), (1, false)], armor: true, checksum: false }, 1, 357),
     ];
+    // targeted sweep: known-length sources (fixed literal header) under small AEAD chunks with
+    // 1..3 signers, so that the literal header falls on / across chunk boundaries
+    let mut sweep: Vec<(Cfg, usize, usize)> = Vec::new();
+    let signer_sets: Vec<Vec<usize>> = vec![vec![0], vec![1], vec![2], vec![3], vec![4], vec![5], vec![0, 1], vec![1, 5], vec![2, 4], vec![0, 1, 1], vec![1, 1, 5], vec![3, 0, 2]];
+    for (si, set) in signer_sets.iter().enumerate() {
+        for cs in [0u8, 1] {
+            for (k, source) in [Source::Bytes, Source::File, Source::Reader].into_iter().enumerate() {
+                for n in [0usize, 10, 200] {
+                    if !ctx.thorough() && (si + k + n) % 2 == 1 {
+                        continue;
+                    }
+                    let signers = set.iter().map(|&ki| (ki, if ki == 5 { HashAlgorithm::Sha512 } else { [HashAlgorithm::Sha256, HashAlgorithm::Sha512][(si + ki) % 2] })).collect();
+                    sweep.push((Cfg { source, utf8: false, chunk_log2: 9, compression: None, signers, sign_text: false,
+                        enc: Enc::V2(SymmetricKeyAlgorithm::AES128, [AeadAlgorithm::Ocb, AeadAlgorithm::Eax, AeadAlgorithm::Gcm][si % 3], cs),
+                        passwords: vec![(b"pw".to_vec(), 0)], recipients: vec![], armor: false, checksum: false }, n, 9000 + sweep.len()));
+                }
+            }
+        }
+    }
+    // many RSA-signed messages: signature values with leading zero octets occur 1 in 256 times
+    let n_rsa = ctx.pick(700, 4000);
+    for j in 0..n_rsa {
+        sweep.push((Cfg { source: Source::Bytes, utf8: false, chunk_log2: 9, compression: None, signers: vec![(4, HashAlgorithm::Sha256)], sign_text: j % 2 == 0,
+            enc: Enc::None, passwords: vec![], recipients: vec![], armor: false, checksum: false }, 3 + j % 7, 20_000 + j));
+    }
+    let mut corpus = corpus;
+    corpus.extend(sweep);
     let n_corpus = corpus.len();
     for i in 0..(n_corpus + n_cfg) {
         let (cfg, forced_n, i) = if i < n_corpus {
             let (c, n, s) = corpus[i].clone();
-            ctx.stat("corpus");
+            ctx.stat(if s >= 9000 { "sweep" } else { "corpus" });
             (c, Some(n), s)
         } else {
             (random_cfg(&mut rng, &ring, ctx.thorough(), i - n_corpus), None, i - n_corpus)
